@@ -33,6 +33,8 @@ type Case struct {
 	Targets []int    `json:"targets"`
 	Form    string   `json:"form"` // in | inset | isin | scope-p-in | scope-p-isin | scope-a-inset | scope-r-is | scope-r-in | scope-a-in | scope-r-isin
 	IsType  string   `json:"is_type,omitempty"`
+	// UIDs overrides the default names (type Types[i], id n<i>) of the first len(UIDs) nodes: {type, id}
+	UIDs [][2]string `json:"uids,omitempty"`
 }
 
 // uid of node i; i < 0 denotes the zero-value EntityUID (what a cedar.Request carries for an unset principal / action /
@@ -40,6 +42,9 @@ type Case struct {
 func uid(c *Case, i int) types.EntityUID {
 	if i < 0 {
 		return types.EntityUID{}
+	}
+	if i < len(c.UIDs) {
+		return types.NewEntityUID(types.EntityType(c.UIDs[i][0]), types.String(c.UIDs[i][1]))
 	}
 	return types.NewEntityUID(types.EntityType(c.Types[i]), types.String(fmt.Sprintf("n%d", i)))
 }
